@@ -27,7 +27,7 @@ for pid in ALL:
         "engine": "vpfacts+vpcheck",
         "level_claimed": {
             "category": "other",
-            "text": "Static analysis of the type-checked program (MIR of both feature configurations, all paths, all generic instantiations at once): decides the structural necessary conditions of the property listed in DESIGN.md §5 — " + spec["explanation"] + " It does not decide numerical behaviour; clauses not decided: " + "; ".join(spec.get("not_decided", [])) + ".",
+            "text": "Static analysis of the type-checked program (MIR of both feature configurations, all paths, all generic instantiations at once): decides the structural necessary conditions of the property listed in DESIGN.md §5 — " + spec["explanation"] + " It does not decide numerical behaviour" + (("; clauses not decided: " + "; ".join(spec.get("not_decided", []))) if spec.get("not_decided") else "") + ".",
             "design_ref": "DESIGN.md §5 " + pid,
         },
         "level_note": "Trusted: rustc's MIR construction and trait resolution, the E1 driver's printing, the signature/semantics tables for external callees (nalgebra, levenberg-marquardt, rayon, distrs, std), the SeparableNonlinearModel trait contract. Rules are exact for their clause; unmodelled constructs on a checked provenance chain are reported as undetermined violations.",
